@@ -3,6 +3,7 @@ CONSTANTS
   MaxDepth = 2
   MaxArts = 4
   MaxSteps = 99
+  NNames = 3
   NTexts = 3
   GenDepth = 15
   Ops = {"mkbundle","mkcat","post","delart","delitem","get","list","cats","reload","setname"}
